@@ -2,7 +2,8 @@
 From FunV Require Import Base.Tac Model.LaunchNet Proofs.Wrappers_lock Proofs.Wrappers_once_net.
 Local Open Scope Z_scope.
 
-Definition a_in (p : apc) : Prop := exists r, p = AInBody r \/ p = AMarked r \/ p = AWrote r.
+Definition a_inb (p : apc) : bool := match p with AInBody _ | AMarked _ | AWrote _ => true | _ => false end.
+Definition a_in (p : apc) : Prop := a_inb p = true.
 
 Record ainv (R : Z) (s : astate) : Prop := {
   ai_in : forall t, a_in (a_pc s t) -> a_running s = true;
@@ -23,8 +24,125 @@ Ltac acrush :=
   | H : context [upd _ ?t _ ?x] |- _ => upd_cases x t
   | |- context [upd _ ?t _ ?x] => upd_cases x t
   end;
-  repeat match goal with H : exists _, _ |- _ => destruct H end;
+  simpl in *;
   try solve [eauto | intuition (try discriminate; try congruence; eauto)].
 
 Lemma ainv_init R : ainv R ainit.
 Proof. constructor; simpl; acrush. Qed.
+
+Ltac afin Iin Iuq Ifr Iex Iaf Irtd Irtr T :=
+  try solve [ exact (Iin _ T)
+            | apply Iuq; assumption
+            | symmetry; apply Iuq; assumption
+            | exfalso; eapply Ifr; eauto
+            | intro; eapply Ifr; eauto
+            | rewrite Iex; repeat match goal with H : _ = _ |- _ => rewrite H end; reflexivity
+            | rewrite Iex, (Iin _ T); reflexivity
+            | match goal with H : a_pc _ _ = AAfter _ |- _ => pose proof (Iaf _ _ H); congruence end
+            | match goal with H : a_pc _ _ = ADoneDo |- _ => pose proof (Irtd _ H); congruence end
+            | match goal with H : a_pc _ _ = ADoneRes _ |- _ => destruct (Irtr _ _ H); first [congruence | split; congruence] end ].
+
+Lemma ainv_step R s l s' : ainv R s -> astep_exec false R s l = Some s' -> ainv R s'.
+Proof.
+  intros I H. destruct I as [Iin Ird Iuq Ifr Iex Ico Iwr Iaf Irtd Irtr].
+  destruct l as [t|t|t|t|t|t|t|t|t]; simpl in H; destruct (a_pc s t) as [|r|r|r|r|r| |v] eqn:Pt; try discriminate;
+    try (assert (T : a_inb (a_pc s t) = true) by (rewrite Pt; reflexivity)).
+  - inv H. constructor; simpl; acrush. all: afin Iin Iuq Ifr Iex Iaf Irtd Irtr T.
+  - inv H. constructor; simpl; acrush. all: afin Iin Iuq Ifr Iex Iaf Irtd Irtr T.
+  - destruct (negb (a_done s) && negb (a_running s)) eqn:E; inv H.
+    apply andb_prop in E. destruct E as [E2 E3]. apply negb_true_iff in E2. apply negb_true_iff in E3.
+    constructor; simpl; acrush. all: afin Iin Iuq Ifr Iex Iaf Irtd Irtr T.
+  - inv H. constructor; simpl; acrush. all: afin Iin Iuq Ifr Iex Iaf Irtd Irtr T.
+  - inv H. constructor; simpl; acrush. all: afin Iin Iuq Ifr Iex Iaf Irtd Irtr T.
+  - inv H. constructor; simpl; acrush. all: afin Iin Iuq Ifr Iex Iaf Irtd Irtr T.
+  - destruct (a_done s) eqn:D; inv H. constructor; simpl; acrush. all: afin Iin Iuq Ifr Iex Iaf Irtd Irtr T.
+  - destruct r; discriminate.
+  - destruct r; inv H; constructor; simpl; acrush; afin Iin Iuq Ifr Iex Iaf Irtd Irtr T.
+    inv H. pose proof (Iaf _ _ Pt). auto.
+Qed.
+
+Lemma ainv_reach R s : areach false R s -> ainv R s.
+Proof. induction 1; eauto using ainv_init, ainv_step. Qed.
+
+(* adt.Once as written: in every reachable state (any number of Do and Resolve callers, any interleaving) a caller that
+   has returned from Do or Resolve did so after the single execution of the constructor had finished; the constructor
+   ran exactly once; Resolve returned its result.  (`called` may be true much earlier: it is set before the
+   constructor runs, and nothing waits on it.) *)
+Theorem adt_once_do_waits_proof R s : areach false R s ->
+  (a_execs s <= 1)%nat /\
+  (forall t, a_pc s t = ADoneDo -> a_done s = true /\ a_execs s = 1%nat) /\
+  (forall t v, a_pc s t = ADoneRes v -> a_done s = true /\ a_execs s = 1%nat /\ v = R).
+Proof.
+  intros Hr. apply ainv_reach in Hr. destruct Hr as [Iin Ird Iuq Ifr Iex Ico Iwr Iaf Irtd Irtr].
+  split; [rewrite Iex; destruct (a_running s || a_done s); lia|]. split.
+  - intros t P. pose proof (Irtd t P) as D. split; [exact D|]. rewrite Iex, D, orb_true_r. reflexivity.
+  - intros t v P. destruct (Irtr t v P) as [D V]. repeat split; auto. rewrite Iex, D, orb_true_r. reflexivity.
+Qed.
+
+(* while the constructor is running, neither return path of a Do/Resolve caller is enabled, although Called() is true *)
+Lemma adt_once_blocked_while_running R s t r : areach false R s -> a_running s = true -> a_pc s t = ACalled r ->
+  astep_exec false R s (APass t) = None /\ astep_exec false R s (AFast t) = None /\ astep_exec false R s (AEnter t) = None.
+Proof.
+  intros Hr Run Pc. apply ainv_reach in Hr. simpl. rewrite Pc. rewrite (ai_rd R s Hr Run), Run. simpl.
+  repeat split; destruct r; reflexivity.
+Qed.
+
+(* with an `if o.Called() { return }` fast path in front of the sync.Once the property is false: caller 2's Do returns
+   while caller 1 is still inside the constructor *)
+Definition adt_fast_labels : list alabel := [ACallDo 1; AEnter 1; AMark 1; ACallDo 2; AFast 2].
+Definition adt_fast_state : astate :=
+  match steps (astep_exec true 7) ainit adt_fast_labels with Some s => s | None => ainit end.
+
+Lemma areach_steps fast R ls : forall s s', areach fast R s -> steps (astep_exec fast R) s ls = Some s' -> areach fast R s'.
+Proof.
+  induction ls as [|l ls IH]; intros s s' Hr H; simpl in H; [now inv H|].
+  destruct (astep_exec fast R s l) eqn:E; [|discriminate]. eapply IH; [|exact H]. eapply areach_step; eauto.
+Qed.
+
+Theorem adt_once_fast_path_refuted :
+  areach true 7 adt_fast_state /\ a_pc adt_fast_state 2 = ADoneDo /\ a_done adt_fast_state = false /\
+  a_pc adt_fast_state 1 = AMarked false.
+Proof.
+  split.
+  - apply (areach_steps true 7 adt_fast_labels ainit); [apply areach_init|]. vm_compute. reflexivity.
+  - repeat split; vm_compute; reflexivity.
+Qed.
+
+(* non-vacuity: a Do caller runs the constructor, a Resolve caller and a second Do caller wait and return afterwards *)
+Definition adt_example_labels : list alabel :=
+  [ACallDo 1; AEnter 1; AMark 1; ACallRes 2; ACallDo 3; ABodyEnd 1; ADoEnd 1; APass 2; ARet 2; APass 3; ARet 3; ARet 1].
+Definition adt_example_state : astate :=
+  match steps (astep_exec false 7) ainit adt_example_labels with Some s => s | None => ainit end.
+
+Example adt_once_nonvacuous :
+  areach false 7 adt_example_state /\ a_pc adt_example_state 1 = ADoneDo /\ a_pc adt_example_state 2 = ADoneRes 7 /\
+  a_pc adt_example_state 3 = ADoneDo /\ a_execs adt_example_state = 1%nat.
+Proof.
+  split.
+  - apply (areach_steps false 7 adt_example_labels ainit); [apply areach_init|]. vm_compute. reflexivity.
+  - repeat split; vm_compute; reflexivity.
+Qed.
+
+(* the adt.Once replay only takes steps of the net *)
+Theorem adt_replay_sound R res evs s : replay (adt_tr R res) ainit evs = Some s -> areach false R s.
+Proof.
+  revert s. assert (G : forall evs s0 s, areach false R s0 -> replay (adt_tr R res) s0 evs = Some s -> areach false R s).
+  { induction evs0 as [|e evs0 IH]; intros s0 s Hr H; simpl in H; [now inv H|].
+    destruct (adt_tr R res s0 e) as [s1|] eqn:E; [|discriminate]. eapply IH; [|exact H].
+    clear H IH. destruct e as [t|t|t v|t v]; unfold adt_tr in E.
+    - eapply areach_step; eauto.
+    - eapply areach_steps; eauto.
+    - eapply areach_steps; eauto.
+    - remember (match a_pc s0 t with
+                | ACalled _ => steps (astep_exec false R) s0 [APass t; ARet t]
+                | _ => astep_exec false R s0 (ARet t)
+                end) as X eqn:EX.
+      destruct X as [s2|]; [|discriminate].
+      assert (R2 : areach false R s2).
+      { symmetry in EX. destruct (a_pc s0 t); first [solve [eapply areach_step; eauto] | solve [eapply areach_steps; eauto]]. }
+      destruct (a_pc s2 t); try discriminate.
+      + inv E. exact R2.
+      + destruct (_ =? _); inv E. exact R2. }
+  intros s. apply G. apply areach_init.
+Qed.
+
